@@ -33,7 +33,7 @@ CFG = dict(
           "independently of the size (random, all zeros, all 0xFF, random head + zero tail starting at/just before/just after the "
           "last 32 KiB and 4 KiB boundary, zero head + random tail, alternating zero/data 4 KiB and 32 KiB blocks; all 15 classes "
           "on the kinds that transfer bytes, random + zeros on the others), a missing source, and real faults without hooks: "
-          "destination /dev/full and a symlink to it (create succeeds, every write fails with ENOSPC), and - unless running as "
+          "destination a symlink (in the scratch directory) to /dev/full (create follows it and succeeds, every write fails with ENOSPC), and - unless running as "
           "root - an unwritable destination directory and an unreadable source; real files, one case = one call on a freshly "
           "arranged directory; non-trivial = distinct case lines"),
     trusted_base=[HARNESS_TB, EXTRACT_TB,
